@@ -388,6 +388,10 @@ func explore(r *ev.Run, be backend, keys []string, values []string, depthAll, de
 			if !r.Mine(i) {
 				return
 			}
+			if r.OutOfTime() {
+				r.Capped(fmt.Sprintf("%s: internal deadline reached at depth %d", be.name(), depth))
+				return
+			}
 			n := next[i]
 			s, err := be.open()
 			if err != nil {
@@ -415,6 +419,9 @@ func explore(r *ev.Run, be backend, keys []string, values []string, depthAll, de
 			}
 		})
 		frontier = next
+		if r.OutOfTime() {
+			break
+		}
 		r.Bound(fmt.Sprintf("%s_depth_completed", be.name()), depth)
 		fmt.Printf("[c14] %s depth %d: %d nodes, t=%s\n", be.name(), depth, len(next), time.Since(t0))
 	}
